@@ -1,4 +1,4 @@
-import WM.Lemmas.IndexUpdate
+import WM.Lemmas.IndexUndelete
 /-! Assembling the per-call lemmas: runs, sessions, histories. -/
 namespace WM.Index
 open WM.Dict
@@ -6,12 +6,10 @@ open WM.Dict
 /-- Side conditions of the refinement, per call (evaluated in the state the call is made in):
     `update_document` must be unambiguous (at most one live committed document per unique term of
     the new document — `first_id` deletes only one); a field that is added must not occur in live
-    documents (field names are not reused after `remove_field`); un-delete is outside the
-    specification. -/
+    documents (field names are not reused after `remove_field`). -/
 def OpOK (w : Writer) (ss : Sess) : Op → Prop
   | .update d => Unambiguous ss d
   | .addField f _ => ∀ q ∈ liveGlobal w.segs 0, q.1.hasField f = false
-  | .undelDoc _ => False
   | _ => True
 
 theorem Writer.addField_wf (w : Writer) (f : Nat) (u : Bool) (w' : Writer) (hwf : w.WF)
@@ -46,7 +44,11 @@ theorem step_sim (w : Writer) (ss : Sess) (h : SRel w ss) (hwf : w.WF) (op : Op)
     cases h1 : w.deleteDocument n true with
     | ok w' => simp only [Writer.step, h1]; exact Writer.deleteDocument_wf w n true w' hwf h1
     | error e => simp only [Writer.step, h1]; exact hwf
-  | undelDoc n => exact absurd hok (by simp [OpOK])
+  | undelDoc n =>
+    refine ⟨step_undelDoc w ss h hwf n, ?_⟩
+    cases h1 : w.deleteDocument n false with
+    | ok w' => simp only [Writer.step, h1]; exact Writer.deleteDocument_wf w n false w' hwf h1
+    | error e => simp only [Writer.step, h1]; exact hwf
   | delBy q =>
     cases q with
     | term f t =>
